@@ -536,3 +536,8 @@ def rand_factory_config(rng, syntax, delims):
         else:
             out.append(rand_plain_line(rng, delims))
     return out
+
+
+# comment-delimiter sets beyond DELIM_SETS (any list of one-character strings is accepted by check_comment_delimiters):
+# a letter, a brace, a non-ASCII sign, white space (can never be the first non-blank character), duplicates, three at once
+EXOTIC_DELIM_SETS = [[";"], ["a"], ["i", "!"], ["{"], ["\u20ac"], ["\t"], [" ", "#"], ["!", "!"], ["!", ";", "#"], ["^"], ["@", "$"]]
